@@ -62,6 +62,15 @@ func compareWithRef(c *run.Ctx, b []byte, family string) bool {
 	if !c.Guard("decode", func() interface{} { return hx(b) }, func() { ops, err = decodeRec(b) }) {
 		return false
 	}
+	// validation-only use: a nil Destination must not change what is accepted
+	var nilErr error
+	if !c.Guard("decode(nil destination)", func() interface{} { return hx(b) }, func() { nilErr = decode.Decode(nil, b) }) {
+		return false
+	}
+	if (nilErr == nil) != (err == nil) {
+		c.Violate("accept-depends-on-nil-destination", map[string]interface{}{"family": family, "input": hx(b), "with_recorder": errStr(err), "with_nil": errStr(nilErr)})
+		return false
+	}
 	res := ref.Parse(b)
 	if !res.Meta.MIDsIncreasing() {
 		// Order and repetition of metadata chunks is a declared don't-care.
